@@ -547,6 +547,15 @@ class Ctx:
                 ba = _single_atom(b)
                 if ba is not None and ba.name == "powf" and isinstance(ba.args[1], RatFunc) and ba.args[1].is_const():
                     return self.app("powf", [ba.args[0], self.num(ba.args[1].const_value() * e)])
+        if name == "powf" and isinstance(args[0], RatFunc) and isinstance(args[1], RatFunc) and not args[1].is_const():
+            # powf(powf(x, a), b) with symbolic exponents whose product is a constant (a = 1/g, b = g): x^(a·b)
+            ba = _single_atom(args[0])
+            if ba is not None and ba.name == "powf" and isinstance(ba.args[1], RatFunc):
+                prod = ba.args[1] * args[1]
+                if prod.is_const():
+                    if prod.const_value() == 1:
+                        return ba.args[0]
+                    return self.app("powf", [ba.args[0], prod])
         if name == "exp" and isinstance(args[0], RatFunc):
             ba = _single_atom(args[0])
             if ba is not None and ba.name == "ln":
